@@ -51,6 +51,22 @@ extern long ext_apply (long (*cb) (long, int), long x, int y);
 extern long ext_apply_p (long (*cb) (struct ext_p), int a, long b);
 extern _Bool ext_isodd (unsigned x);
 extern unsigned char ext_lowbyte (long x);
+struct ext_d2 { double d[2]; };
+struct ext_f3 { float f[3]; };
+struct ext_tf { int tag; float f[3]; };
+struct ext_nf { struct { float x, y; } p; float z; char c; };
+union ext_uf { float f[4]; int i; };
+extern struct ext_d2 ext_mkd2 (int a, int b);
+extern long ext_sum_d2 (struct ext_d2 v);
+extern struct ext_f3 ext_mkf3 (short a, short b, short c);
+extern long ext_sum_f3 (struct ext_f3 v, int k);
+extern struct ext_tf ext_mktf (int tag, short a);
+extern long ext_sum_tf (long pre, struct ext_tf v);
+extern struct ext_nf ext_mknf (short a, signed char c);
+extern long ext_sum_nf (struct ext_nf v);
+extern union ext_uf ext_mkuf (short a);
+extern long ext_sum_uf (union ext_uf v);
+extern long ext_apply_f3 (struct ext_f3 (*cb) (struct ext_f3, int), short a);
 '''
 
 
@@ -529,9 +545,14 @@ class Gen:
         # a union for type punning through its members (defined in C11 6.5.2.3, fn 95; all members are
         # integer types without padding bits, little endian on both compilers)
         L.append('union U0 { long long ll; struct { int lo; unsigned hi; } s; unsigned char b[8]; '
-                 'struct { short h0; unsigned short h1; struct { signed char c0; unsigned char c1; short h2; } in; } t; unsigned long ul; };')
+                 'struct { short h0; unsigned short h1; struct { signed char c0; unsigned char c1; short h2; } in; } t; unsigned long ul; '
+                 'unsigned w[2]; short hw[4]; struct { unsigned short q[2]; int qi; } a; };')
+        # a struct with an anonymous union (C11 6.7.2.1p13): its members are members of the struct
+        L.append('struct AU { int tag; union { int ai; unsigned au; short ah[2]; unsigned char ab[4]; }; long tail; };')
         UL = [('ll', 'llong'), ('s.lo', 'int'), ('s.hi', 'uint'), ('t.h0', 'short'), ('t.h1', 'ushort'), ('t.in.c0', 'schar'),
-              ('t.in.c1', 'uchar'), ('t.in.h2', 'short'), ('ul', 'ulong')] + [('b[%d]' % i, 'uchar') for i in range(8)]
+              ('t.in.c1', 'uchar'), ('t.in.h2', 'short'), ('ul', 'ulong')] + [('b[%d]' % i, 'uchar') for i in range(8)] + \
+             [('w[0]', 'uint'), ('w[1]', 'uint'), ('hw[0]', 'short'), ('hw[3]', 'short'), ('a.q[1]', 'ushort'), ('a.qi', 'int')]
+        AUL = [('ai', 'int'), ('au', 'uint'), ('ah[0]', 'short'), ('ah[1]', 'short'), ('ab[0]', 'uchar'), ('ab[3]', 'uchar')]
         self.features.add('union-punning')
         self.UL = UL
         # globals
@@ -612,8 +633,10 @@ class Gen:
             name = 'pun%d' % i
             (wa, _), (wb, _) = r.choice(whole), r.choice(whole)
             (pa, _), (pb, _) = r.choice(part), r.choice(part)
-            kind = r.randrange(4)
+            kind = r.randrange(7)
             self.features.add('union-pun-function')
+            if kind >= 4:
+                self.features.add(['union-member-vs-pointer-to-its-type', 'anonymous-union-pun', 'anonymous-union-pun'][kind - 4])
             if kind == 0:      # local: whole, patch a part, reload whole
                 L.append('static u64 %s (u64 x, u64 y) { union U0 u; u.%s = x; u.%s = y; return (u64) u.%s ^ ((u64) u.%s << 1); }'
                          % (name, wa, pa, wb, pb))
@@ -623,6 +646,21 @@ class Gen:
             elif kind == 2:    # the global union
                 L.append('static u64 %s (u64 x, u64 y) { gu0.%s = x; gu0.%s = y; u64 t = (u64) gu0.%s; gu0.%s = (u64) gu0.%s + 1u; '
                          'return t ^ (u64) gu0.%s; }' % (name, wa, pa, wb, pb, pa, wa))
+            elif kind == 4:    # a union member (or a part of one) and a pointer to that very object (C11 6.5p7: same type)
+                (m, t) = r.choice(UL)
+                L.append('static u64 %s_q (union U0 *p, %s *q, u64 y) { p->%s = y; *q = (%s) (y ^ 3u); u64 t = (u64) p->%s; p->%s = 7; '
+                         'return t + (u64) *q; }' % (name, self.c(t), m, self.c(t), m, m))
+                L.append('static u64 %s (u64 x, u64 y) { union U0 u; u.%s = x; return %s_q (&u, &u.%s, y) ^ (u64) u.%s; }' % (name, wa, name, m, wb))
+            elif kind == 5:    # members of an anonymous union: local object
+                (ma, _), (mb, _), (mc, _) = r.choice(AUL), r.choice(AUL), r.choice(AUL)
+                L.append('static u64 %s (u64 x, u64 y) { struct AU a; a.tag = 1; a.tail = 2; a.au = 0; a.%s = x; a.%s = y; '
+                         'return (u64) a.%s + (u64) a.%s * 3u + (u64) a.tag + (u64) a.tail; }' % (name, ma, mb, mc, ma))
+            elif kind == 6:    # members of an anonymous union through a pointer
+                (ma, _), (mb, _), (mc, _) = r.choice(AUL), r.choice(AUL), r.choice(AUL)
+                L.append('static u64 %s_p (struct AU *p, u64 y) { u64 before = (u64) p->%s; p->%s = y; p->%s = (u64) p->%s ^ 5u; '
+                         'return before ^ (u64) p->%s; }' % (name, ma, mb, mc, mc, ma))
+                L.append('static u64 %s (u64 x, u64 y) { struct AU a; a.tag = 3; a.tail = 4; a.au = x; return %s_p (&a, y) + (u64) a.ai + (u64) a.tail; }'
+                         % (name, name))
             else:              # through a pointer
                 L.append('static u64 %s_p (union U0 *p, u64 y) { u64 before = (u64) p->%s; p->%s = y; p->%s = (u64) p->%s ^ 5u; '
                          'return before ^ (u64) p->%s; }' % (name, wa, pa, pb, pb, wb))
@@ -657,6 +695,8 @@ class Gen:
             L.append('static long cb_long (long a, int b) { return (long)((unsigned long)a * 3u + (unsigned)b) ^ p0 (%s); }'
                      % ', '.join(['(%s)a' % self.c(self.pure[0][2][0])] + ['(%s)b' % self.c(t) for t in self.pure[0][2][1:]]))
             L.append('static long cb_p (struct ext_p p) { return (long)((unsigned long)p.a + (unsigned long)p.b * 5u); }')
+            L.append('static struct ext_f3 cb_f3 (struct ext_f3 v, int k) { struct ext_f3 r; r.f[0] = v.f[2] + (float) k; r.f[1] = v.f[0] * 2.0f; '
+                     'r.f[2] = v.f[1] - 1.0f; return r; }')
         # main
         L.append('int main (void) {')
         body = []
@@ -682,7 +722,7 @@ class Gen:
         atoms = gatoms + locs
         writ = gwrit + [(n, t, 0) for n, t in locs]
         if r.random() < 0.6:
-            body.append('union U0 lu0 = { .%s = %s };' % (r.choice(['ll', 'ul', 's.hi', 't.in.h2', 'b[3]']), self.const_val('llong')))
+            body.append('union U0 lu0 = { .%s = %s };' % (r.choice(['ll', 'ul', 's.hi', 't.in.h2', 'b[3]', 'w[1]', 'a.qi', 'hw[2]']), self.const_val('llong')))
             for mname, t in UL:
                 atoms.append(('lu0.' + mname, t))
                 writ.append(('lu0.' + mname, t, 0))
@@ -731,7 +771,27 @@ class Gen:
         r = self.r
         e = lambda: self.expr(ctx, 2)[0]
         self.features.add('ext-call')
-        k = r.randrange(9)
+        k = r.randrange(15)
+        sh = lambda: self.cast('short', e())
+        if k >= 9:
+            self.features.add('ext-floating-array-aggregate')
+        if k == 9:
+            return ['{ struct ext_d2 q = ext_mkd2 ((int)%s, (int)%s); mix ((u64)(long)(q.d[0] * 2.0)); mix ((u64)(long)(q.d[1] * 4.0)); '
+                    'q.d[1] = q.d[0] + 1.0; mix ((u64)ext_sum_d2 (q)); }' % (sh(), sh())]
+        if k == 10:
+            return ['{ struct ext_f3 q = ext_mkf3 (%s, %s, %s); mix ((u64)(long)(q.f[1] * 2.0f)); mix ((u64)(long)q.f[2]); q.f[0] = 3.5f; '
+                    'mix ((u64)ext_sum_f3 (q, (int)%s)); }' % (sh(), sh(), self.cast('schar', e()), sh())]
+        if k == 11:
+            return ['{ struct ext_tf q = ext_mktf (%s, %s); mix ((u64)q.tag); mix ((u64)(long)(q.f[1] * 2.0f)); mix ((u64)(long)(q.f[2] * 4.0f)); '
+                    'mix ((u64)ext_sum_tf (%s, q)); }' % (self.cast('int', e()), sh(), self.cast('long', e()))]
+        if k == 12:
+            return ['{ struct ext_nf q = ext_mknf (%s, %s); mix ((u64)(long)(q.p.x * 4.0f)); mix ((u64)(long)q.p.y); mix ((u64)(long)q.z); mix ((u64)q.c); '
+                    'mix ((u64)ext_sum_nf (q)); }' % (sh(), self.cast('schar', e()))]
+        if k == 13:
+            return ['{ union ext_uf q = ext_mkuf (%s); mix ((u64)(long)q.f[3]); q.f[1] = 0.5f; mix ((u64)ext_sum_uf (q)); }' % sh()]
+        if k == 14:
+            self.features.add('ext-callback')
+            return ['mix ((u64)ext_apply_f3 (cb_f3, %s));' % sh()]
         if k == 0:
             return ['mix ((u64)ext_add3 (%s, %s, %s));' % (self.cast('int', e()), self.cast('long', e()), self.cast('short', e()))]
         if k == 1:
